@@ -110,17 +110,17 @@ theorem hIter_cases {σ : Type} (P : HParams K n) (Kn : HKernel K n) (f : Rhs K 
 theorem hFinish_status {σ : Type} (P : HParams K n) (Kn : HKernel K n) (f : Rhs K n) (ob : Obs σ K n)
     (s : HState σ K n) (h : K) (last : Bool) (hnew facold hlamb : K) (ns ia : Nat) (sa : Kn.SA) (m : Meter K n) :
     Both (fun s' : HState σ K n => s'.last = false ∧ last = false ∧ s'.x = s.x + h)
-         (fun r : Result σ K n => (r.status = .success → last = true) ∧ r.x = s.x + h)
+         (fun r : Result σ K n => (r.status = .success → last = true ∧ r.x = P.xend) ∧ r.x = landX last P.xend s.x h)
       (hFinish P Kn f ob s h last hnew facold hlamb ns ia sa m) := by
   unfold hFinish
   dsimp only
   split
   · exact ⟨fun h => (by cases h), rfl⟩
   · by_cases hl : last = true
-    · rw [if_pos hl]; exact ⟨fun _ => hl, rfl⟩
+    · rw [if_pos hl]; exact ⟨fun _ => ⟨hl, by simp [landX, hl]⟩, rfl⟩
     · rw [if_neg hl]
       have : last = false := by cases last <;> simp_all
-      exact ⟨this, this, rfl⟩
+      exact ⟨this, this, by simp [landX, this]⟩
 
 /-- the loop never carries `last = true` into the next pass -/
 theorem hIter_last {σ : Type} (P : HParams K n) (Kn : HKernel K n) (f : Rhs K n) (ob : Obs σ K n) (s : HState σ K n)
@@ -134,8 +134,9 @@ theorem hIter_last {σ : Type} (P : HParams K n) (Kn : HKernel K n) (f : Rhs K n
       rw [h2] at h; rw [h] at hf; exact hf.1
   · rw [h1] at h; injection h with h; rw [← h]; rfl
 
-/-- **C03.**  `Success` is reported only when the accepted point is exactly `xend` (exact arithmetic): for every
-    kernel, right-hand side and observer. -/
+/-- **C03.**  `Success` is reported only when the accepted point is exactly `xend`: for every kernel, right-hand side
+    and observer.  Since the landing step sets the new time to `xend` itself (fix eaf3db1) this no longer rests on
+    `x + (xend - x) = xend`, which floating point does not give. -/
 theorem hIter_success_at_xend {σ : Type} (P : HParams K n) (Kn : HKernel K n) (f : Rhs K n) (ob : Obs σ K n)
     (s : HState σ K n) (hl : s.last = false) (r : Result σ K n) (h : hIter P Kn f ob s = .inr r) (hs : r.status = .success) :
     r.x = P.xend := by
@@ -147,15 +148,7 @@ theorem hIter_success_at_xend {σ : Type} (P : HParams K n) (Kn : HKernel K n) (
     · rw [h2] at h; injection h with h; rw [← h] at hs; cases hs
     · have hf := hFinish_status P Kn f ob s (hAdjust P s).1 (hAdjust P s).2 a b c d e g m
       rw [h2] at h; rw [h] at hf
-      obtain ⟨h3, h4⟩ := hf
-      have hlast := h3 hs
-      rw [h4]
-      unfold hAdjust at hlast ⊢
-      by_cases hc : P.lastG s.x s.h P.xend P.posneg
-      · rw [if_pos hc]; ring
-      · rw [if_neg hc] at hlast
-        change s.last = true at hlast
-        rw [hl] at hlast; cases hlast
+      exact (hf.1 hs).2
   · rw [h1] at h; cases h
 
 theorem hLoop_success_at_xend {σ : Type} (P : HParams K n) (Kn : HKernel K n) (f : Rhs K n) (ob : Obs σ K n) :
